@@ -34,10 +34,18 @@ func try(f func()) (p any) {
 	return nil
 }
 
-// typeFor returns a distinct reflect type per k. Mixes sizes, pointer-bearing and relation-like shapes.
+func isRelType(tp reflect.Type) bool {
+	return tp.Kind() == reflect.Struct && tp.NumField() > 0 && tp.Field(0).Type == reflect.TypeFor[ecs.RelationMarker]() && tp.Field(0).Name == "RelationMarker"
+}
+
+// typeFor returns a distinct reflect type per k. Mixes sizes, pointer-bearing and relation shapes.
 func typeFor(k int) reflect.Type {
 	i8 := reflect.TypeFor[int8]()
-	switch k % 4 {
+	switch k % 5 {
+	case 4: // a relation component: embedded ecs.RelationMarker as first field
+		return reflect.StructOf([]reflect.StructField{
+			{Name: "RelationMarker", Type: reflect.TypeFor[ecs.RelationMarker](), Anonymous: true},
+			{Name: "A", Type: reflect.ArrayOf(k+1, i8)}})
 	case 0:
 		return reflect.ArrayOf(k+1, i8)
 	case 1:
@@ -94,202 +102,240 @@ func main() {
 			n = r.Intn(MAX + 1)
 		}
 		desc := []string{fmt.Sprintf("max=%d register %d types then probe", MAX, n)}
-		w := ecs.NewWorld([][]int{nil, {1}, {4, 2}}[r.Intn(3)]...)
-		perm := r.Perm(MAX + 40)
-		var tps []reflect.Type
-		var ids []ecs.ID
-		seen := map[uint8]int{}
-		// universe types take part, registered through the generic path at random positions
-		univAt := map[int]int{}
-		if n >= 8 {
-			for _, c := range []int{u.IP8, u.IPtr, u.IStr, u.IZ0} {
-				univAt[r.Intn(n)] = c
-			}
-		}
-		for i := 0; i < n; i++ {
-			var id ecs.ID
-			var tp reflect.Type
-			if uc, ok := univAt[i]; ok {
-				tp = u.Types[uc].RT
-				id = u.Types[uc].RegisterID(w)
-			} else {
-				tp = typeFor(perm[i])
-				id = ecs.TypeID(w, tp)
-			}
-			cnt["registrations"]++
-			if j, dup := seen[id.Index()]; dup {
-				bad("types %v and %v share ID %d", tps[j], tp, id.Index())
-			}
-			seen[id.Index()] = i
-			tps = append(tps, tp)
-			ids = append(ids, id)
-			// earlier types keep their IDs (sampled)
-			for k := 0; k < 3 && i > 0; k++ {
-				j := r.Intn(i + 1)
-				if again := ecs.TypeID(w, tps[j]); again != ids[j] {
-					bad("type %v changed its ID from %d to %d after %d registrations", tps[j], ids[j].Index(), again.Index(), i+1)
+		func() {
+			// a panic escaping a valid call (e.g. from a query over a half-built archetype) is a violation, not a crash
+			defer func() {
+				if p := recover(); p != nil {
+					bad("a valid call panicked: %v", p)
+				}
+			}()
+			w := ecs.NewWorld([][]int{nil, {1}, {4, 2}}[r.Intn(3)]...)
+			perm := r.Perm(MAX + 40)
+			var tps []reflect.Type
+			var ids []ecs.ID
+			seen := map[uint8]int{}
+			// universe types take part, registered through the generic path at random positions
+			univAt := map[int]int{}
+			if n >= 8 {
+				for _, c := range []int{u.IP8, u.IR1, u.IStr, u.IZ0} {
+					univAt[r.Intn(n)] = c
 				}
 			}
-		}
-		all := ecs.ComponentIDs(w)
-		if len(all) != n {
-			bad("ComponentIDs() lists %d IDs after %d registrations", len(all), n)
-		}
-		for i, id := range ids {
-			info, ok := ecs.ComponentInfo(w, id)
-			if !ok || info.Type != tps[i] || info.ID != id {
-				bad("ComponentInfo(%d) = %+v ok=%v, registered type %v", id.Index(), info, ok, tps[i])
-			}
-			if again := ecs.TypeID(w, tps[i]); again != id {
-				bad("type %v maps to ID %d, later to %d", tps[i], id.Index(), again.Index())
-			}
-			cnt["id-stability-checks"]++
-		}
-		// every registered type is usable
-		U := w.Unsafe()
-		use := func(sel []ecs.ID, what string) {
-			var e ecs.Entity
-			if p := try(func() { e = U.NewEntity(sel...) }); p != nil {
-				bad("%s: creating an entity with %d of %d registered types panicked: %v", what, len(sel), n, p)
-				return
-			}
-			cnt["entities-with-high-ids"]++
-			for _, id := range sel {
-				if !U.Has(e, id) {
-					bad("%s: entity lacks component %d", what, id.Index())
-					break
+			for i := 0; i < n; i++ {
+				var id ecs.ID
+				var tp reflect.Type
+				if uc, ok := univAt[i]; ok {
+					tp = u.Types[uc].RT
+					id = u.Types[uc].RegisterID(w)
+				} else {
+					tp = typeFor(perm[i])
+					id = ecs.TypeID(w, tp)
 				}
-			}
-			q := ecs.NewUnsafeFilter(w, sel...).Query()
-			found := false
-			for q.Next() {
-				if q.Entity() == e {
-					found = true
+				cnt["registrations"]++
+				if j, dup := seen[id.Index()]; dup {
+					bad("types %v and %v share ID %d", tps[j], tp, id.Index())
 				}
-				for _, id := range sel[:min(len(sel), 3)] {
-					if q.Get(id) != U.Get(e, id) && q.Entity() == e {
-						bad("%s: query pointer differs from random access for component %d", what, id.Index())
+				seen[id.Index()] = i
+				tps = append(tps, tp)
+				ids = append(ids, id)
+				// earlier types keep their IDs (sampled)
+				for k := 0; k < 3 && i > 0; k++ {
+					j := r.Intn(i + 1)
+					if again := ecs.TypeID(w, tps[j]); again != ids[j] {
+						bad("type %v changed its ID from %d to %d after %d registrations", tps[j], ids[j].Index(), again.Index(), i+1)
 					}
 				}
 			}
-			if !found {
-				bad("%s: query over %d components does not find the entity", what, len(sel))
-			}
-			ex := ecs.NewUnsafeFilter(w, sel...).Exclusive().Query()
-			k := 0
-			for ex.Next() {
-				if ex.Entity() == e {
-					k++
+			checkInfo := func(when string) {
+				for i, id := range ids {
+					info, ok := ecs.ComponentInfo(w, id)
+					if !ok || info.Type != tps[i] || info.ID != id || info.IsRelation != isRelType(tps[i]) {
+						bad("%s: ComponentInfo(%d) = %+v ok=%v, registered type %v (relation=%v)", when, id.Index(), info, ok, tps[i], isRelType(tps[i]))
+						return
+					}
 				}
 			}
-			if k != 1 {
-				bad("%s: exclusive query finds the entity %d times", what, k)
+			all := ecs.ComponentIDs(w)
+			if len(all) != n {
+				bad("ComponentIDs() lists %d IDs after %d registrations", len(all), n)
 			}
-			// without the last ID the entity must be excluded
-			wq := ecs.NewUnsafeFilter(w).Without(sel[len(sel)-1]).Query()
-			for wq.Next() {
-				if wq.Entity() == e {
-					bad("%s: Without(%d) query still visits the entity", what, sel[len(sel)-1].Index())
+			for i, id := range ids {
+				info, ok := ecs.ComponentInfo(w, id)
+				if !ok || info.Type != tps[i] || info.ID != id {
+					bad("ComponentInfo(%d) = %+v ok=%v, registered type %v", id.Index(), info, ok, tps[i])
 				}
-			}
-			if p := try(func() { U.Remove(e, sel[len(sel)-1]) }); p != nil {
-				bad("%s: removing component %d panicked: %v", what, sel[len(sel)-1].Index(), p)
-			} else if len(sel) > 1 && !U.Has(e, sel[0]) {
-				bad("%s: entity lost component %d", what, sel[0].Index())
-			}
-			w.RemoveEntity(e)
-		}
-		if n > 0 {
-			use(ids[n-1:], "last ID")
-			use(ids[:1], "first ID")
-			// every word boundary that exists
-			var bnd []ecs.ID
-			for _, b := range []int{0, 63, 64, 127, 128, 191, 192, 255} {
-				if b < n {
-					bnd = append(bnd, ids[b])
+				if again := ecs.TypeID(w, tps[i]); again != id {
+					bad("type %v maps to ID %d, later to %d", tps[i], id.Index(), again.Index())
 				}
+				cnt["id-stability-checks"]++
 			}
-			use(bnd, "word boundaries")
-			if c%8 == 0 || n == MAX {
-				use(ids, "all IDs")
-			}
-			if n == MAX {
-				for _, id := range ids {
-					use([]ecs.ID{id}, "single ID at full registry")
+			// every registered type is usable
+			U := w.Unsafe()
+			use := func(sel []ecs.ID, what string) {
+				var e ecs.Entity
+				var rels []ecs.Relation
+				for _, id := range sel {
+					if info, ok := ecs.ComponentInfo(w, id); ok && isRelType(info.Type) {
+						rels = append(rels, ecs.RelID(id, ecs.Entity{}))
+					}
 				}
-			}
-			// random subset
-			var sub []ecs.ID
-			for _, i := range r.Perm(n)[:min(n, 1+r.Intn(12))] {
-				sub = append(sub, ids[i])
-			}
-			use(sub, "random subset")
-		}
-		// registering on a locked world panics without consuming an ID
-		if n < MAX {
-			q := ecs.NewFilter0(w).Query()
-			newTp := typeFor(perm[MAX+1])
-			if try(func() { ecs.TypeID(w, newTp) }) == nil {
-				bad("registering a new component type on a locked world did not panic")
-			}
-			cnt["locked-registrations"]++
-			if len(ecs.ComponentIDs(w)) != n {
-				bad("rejected registration on a locked world changed the number of IDs to %d", len(ecs.ComponentIDs(w)))
-			}
-			// existing types are still resolvable while locked
-			if n > 0 {
 				if p := try(func() {
-					if ecs.TypeID(w, tps[0]) != ids[0] {
-						bad("existing type resolves differently on a locked world")
+					if len(rels) > 0 {
+						e = U.NewEntityRel(sel, rels...)
+					} else {
+						e = U.NewEntity(sel...)
 					}
 				}); p != nil {
-					bad("resolving an existing type on a locked world panicked: %v", p)
+					bad("%s: creating an entity with %d of %d registered types panicked: %v", what, len(sel), n, p)
+					return
+				}
+				cnt["entities-with-high-ids"]++
+				for _, id := range sel {
+					if !U.Has(e, id) {
+						bad("%s: entity lacks component %d", what, id.Index())
+						break
+					}
+				}
+				q := ecs.NewUnsafeFilter(w, sel...).Query()
+				found := false
+				for q.Next() {
+					if q.Entity() == e {
+						found = true
+					}
+					for _, id := range sel[:min(len(sel), 3)] {
+						if q.Get(id) != U.Get(e, id) && q.Entity() == e {
+							bad("%s: query pointer differs from random access for component %d", what, id.Index())
+						}
+					}
+				}
+				if !found {
+					bad("%s: query over %d components does not find the entity", what, len(sel))
+				}
+				ex := ecs.NewUnsafeFilter(w, sel...).Exclusive().Query()
+				k := 0
+				for ex.Next() {
+					if ex.Entity() == e {
+						k++
+					}
+				}
+				if k != 1 {
+					bad("%s: exclusive query finds the entity %d times", what, k)
+				}
+				// without the last ID the entity must be excluded
+				wq := ecs.NewUnsafeFilter(w).Without(sel[len(sel)-1]).Query()
+				for wq.Next() {
+					if wq.Entity() == e {
+						bad("%s: Without(%d) query still visits the entity", what, sel[len(sel)-1].Index())
+					}
+				}
+				if p := try(func() { U.Remove(e, sel[len(sel)-1]) }); p != nil {
+					bad("%s: removing component %d panicked: %v", what, sel[len(sel)-1].Index(), p)
+				} else if len(sel) > 1 && !U.Has(e, sel[0]) {
+					bad("%s: entity lost component %d", what, sel[0].Index())
+				}
+				w.RemoveEntity(e)
+			}
+			if n > 0 {
+				use(ids[n-1:], "last ID")
+				use(ids[:1], "first ID")
+				// every word boundary that exists
+				var bnd []ecs.ID
+				for _, b := range []int{0, 63, 64, 127, 128, 191, 192, 255} {
+					if b < n {
+						bnd = append(bnd, ids[b])
+					}
+				}
+				use(bnd, "word boundaries")
+				if c%8 == 0 || n == MAX {
+					use(ids, "all IDs")
+				}
+				if n == MAX {
+					for _, id := range ids {
+						use([]ecs.ID{id}, "single ID at full registry")
+					}
+				}
+				// random subset
+				var sub []ecs.ID
+				for _, i := range r.Perm(n)[:min(n, 1+r.Intn(12))] {
+					sub = append(sub, ids[i])
+				}
+				use(sub, "random subset")
+			}
+			// registering on a locked world panics without consuming an ID
+			if n < MAX {
+				q := ecs.NewFilter0(w).Query()
+				newTp := typeFor(perm[MAX+1])
+				if try(func() { ecs.TypeID(w, newTp) }) == nil {
+					bad("registering a new component type on a locked world did not panic")
+				}
+				cnt["locked-registrations"]++
+				if len(ecs.ComponentIDs(w)) != n {
+					bad("rejected registration on a locked world changed the number of IDs to %d", len(ecs.ComponentIDs(w)))
+				}
+				checkInfo("after the rejected registration on a locked world")
+				// existing types are still resolvable while locked
+				if n > 0 {
+					if p := try(func() {
+						if ecs.TypeID(w, tps[0]) != ids[0] {
+							bad("existing type resolves differently on a locked world")
+						}
+					}); p != nil {
+						bad("resolving an existing type on a locked world panicked: %v", p)
+					}
+				}
+				q.Close()
+				if n > 0 {
+					// the most recently registered type must still be usable in a new archetype
+					use(ids[n-1:], "last registered type after the rejected registration")
+					if n > 1 {
+						use(ids[n-2:], "last two registered types after the rejected registration")
+					}
+				}
+				var id ecs.ID
+				if p := try(func() { id = ecs.TypeID(w, newTp) }); p != nil {
+					bad("registering the type after unlocking panicked: %v", p)
+				} else if int(id.Index()) != n {
+					bad("type rejected on the locked world got ID %d afterwards, expected the next free ID %d", id.Index(), n)
+				} else {
+					tps = append(tps, newTp)
+					ids = append(ids, id)
+					use([]ecs.ID{id}, "type registered after the rejected attempt")
 				}
 			}
-			q.Close()
-			var id ecs.ID
-			if p := try(func() { id = ecs.TypeID(w, newTp) }); p != nil {
-				bad("registering the type after unlocking panicked: %v", p)
-			} else if int(id.Index()) != n {
-				bad("type rejected on the locked world got ID %d afterwards, expected the next free ID %d", id.Index(), n)
-			} else {
-				tps = append(tps, newTp)
+			// fill up to the maximum: the maximum stays reachable, beyond it registration panics
+			for i := len(ids); i < MAX; i++ {
+				tp := typeFor(perm[i] + 1000)
+				var id ecs.ID
+				if p := try(func() { id = ecs.TypeID(w, tp) }); p != nil {
+					bad("registering type %d of %d panicked: %v", i+1, MAX, p)
+					break
+				}
+				if int(id.Index()) != i {
+					bad("registration %d got ID %d", i+1, id.Index())
+				}
+				tps = append(tps, tp)
 				ids = append(ids, id)
-				use([]ecs.ID{id}, "type registered after the rejected attempt")
 			}
-		}
-		// fill up to the maximum: the maximum stays reachable, beyond it registration panics
-		for i := len(ids); i < MAX; i++ {
-			tp := typeFor(perm[i] + 1000)
-			var id ecs.ID
-			if p := try(func() { id = ecs.TypeID(w, tp) }); p != nil {
-				bad("registering type %d of %d panicked: %v", i+1, MAX, p)
-				break
-			}
-			if int(id.Index()) != i {
-				bad("registration %d got ID %d", i+1, id.Index())
-			}
-			tps = append(tps, tp)
-			ids = append(ids, id)
-		}
-		if len(ids) == MAX {
-			use(ids[MAX-1:], "last ID at the maximum")
-			over := typeFor(5000 + c)
-			if try(func() { ecs.TypeID(w, over) }) == nil {
-				bad("registering type %d (beyond the maximum %d) did not panic", MAX+1, MAX)
-			}
-			cnt["over-max-registrations"]++
-			if len(ecs.ComponentIDs(w)) != MAX {
-				bad("rejected over-max registration changed the number of IDs to %d", len(ecs.ComponentIDs(w)))
-			}
-			for k := 0; k < 8; k++ {
-				j := r.Intn(MAX)
-				if ecs.TypeID(w, tps[j]) != ids[j] {
-					bad("mapping of type %v changed after the rejected over-max registration", tps[j])
+			if len(ids) == MAX {
+				use(ids[MAX-1:], "last ID at the maximum")
+				over := typeFor(5000 + c)
+				if try(func() { ecs.TypeID(w, over) }) == nil {
+					bad("registering type %d (beyond the maximum %d) did not panic", MAX+1, MAX)
 				}
+				cnt["over-max-registrations"]++
+				if len(ecs.ComponentIDs(w)) != MAX {
+					bad("rejected over-max registration changed the number of IDs to %d", len(ecs.ComponentIDs(w)))
+				}
+				for k := 0; k < 8; k++ {
+					j := r.Intn(MAX)
+					if ecs.TypeID(w, tps[j]) != ids[j] {
+						bad("mapping of type %v changed after the rejected over-max registration", tps[j])
+					}
+				}
+				checkInfo("after the rejected over-max registration")
+				use(ids[MAX-1:], "last ID after the rejected over-max registration")
 			}
-			use(ids[MAX-1:], "last ID after the rejected over-max registration")
-		}
+		}()
 		msgs = append(msgs, resources(r, cnt)...)
 		res.Cases++
 		res.Hashes[fmt.Sprintf("n=%d/%x/%d", n, *seed, c)] = n > 0
